@@ -89,6 +89,13 @@ def lasym_check(cfg, q):
             s = sg[1] * sg[2]
             scale = max(float(np.max(np.abs(v))), 1e-300)
             err = float(np.max(np.abs(rev(v) - s * v))) / scale
+            if 'r_singularity' in k and q.nphi > 10:
+                # the root selection is discontinuous at round-off level (thresholded candidates, sentinel 1e100): isolated flips at one mirror pair are not a
+                # parity defect (same rule as in the sign and shift comparisons)
+                vv_ = np.where(np.abs(v) > 1e50, 0.0, v); sc_ = max(float(np.max(np.abs(vv_))), 1e-300)
+                dpt = np.where((np.abs(v) > 1e50) != (np.abs(rev(v)) > 1e50), 1.0, np.abs(rev(vv_) - s * vv_) / sc_)
+                if int(np.sum(dpt > 1e-4)) <= 2:
+                    continue
             if err > 1e-6:
                 out.append(dict(key='parity:' + k, what='%s of a stellarator-symmetric input has no definite parity (%.3g)' % (k, err), cfg=jsonable(cfg)))
     return out
